@@ -106,25 +106,28 @@ def sigop_cases(ctx, n):
     return out
 
 
-def handle(ctx, events, rejects):
+def handle(ctx, events, rejects, cases=None):
     for i, why in rejects:
         key, what = classify(events, i, why)
         if key is None:
             continue
         b, beg, end = V.trace_of(events, i)
-        case = V.mkcase(beg["id"], beg["unlock"], beg["lock"], beg["flags"], beg.get("src", "replay"),
-                        ver=int.from_bytes(bytes(beg["ver"]), "little"), lt=int.from_bytes(bytes(beg["lt"]), "little"),
-                        seq=int.from_bytes(bytes(beg["seq"]), "little"), notx=beg.get("notx", False))
-        for k in ("idx", "nilprev", "nin"):
-            if k in beg.get("extra", {}):
-                case[k] = beg["extra"][k]
+        if cases is not None and "tx" in cases[beg["case"]]:
+            case = cases[beg["case"]]              # a signature scenario: replayed with its transaction
+        else:
+            case = V.mkcase(beg["id"], beg["unlock"], beg["lock"], beg["flags"], beg.get("src", "replay"),
+                            ver=int.from_bytes(bytes(beg["ver"]), "little"), lt=int.from_bytes(bytes(beg["lt"]), "little"),
+                            seq=int.from_bytes(bytes(beg["seq"]), "little"), notx=beg.get("notx", False))
+            for k in ("idx", "nilprev", "nin"):
+                if k in beg.get("extra", {}):
+                    case[k] = beg["extra"][k]
         ctx.candidate(key, what, dict(case=case, summary=V.describe(beg, end, why, i - b)))
 
 
 def run(ctx):
     ctx.cov["rule"] = ("cases = Engine.Execute on arbitrary byte strings as scripts (all 1-byte, 2-byte (sampled in quick), 3-byte over an "
                        "opcode alphabet), random and mutated programs, signature/locktime opcodes behind arbitrary stacks, with all 2^16 "
-                       "flag words sampled, with a tx / without / nil previous output / invalid input index, each run with no debugger, a "
+                       "flag words sampled, with a tx / without / nil previous output / invalid input index, the signature scenarios of C06 (real transaction shapes, all hash types), each run with no debugger, a "
                        "recording and a scribbling debugger, crash-isolated; judged by Trace_VM: outcome in {ok, err} for all three runs, "
                        "steps <= bound, and every recorded step must be a ScriptVM step where the model applies; "
                        "distinct = (scripts, flags, context)")
@@ -148,6 +151,10 @@ def run(ctx):
     cases += sigop_cases(ctx, ctx.pick(1500, 40000))
     cases += odd_context_cases(ctx, ctx.pick(600, 10000))
     cases += V.mutated_vectors(ctx, ctx.pick(400, 10000))
+    # signature scenarios over real transaction shapes (1-3 inputs, 0-3 outputs, every signed position, all hash
+    # types): the digest code behind CHECKSIG / CHECKMULTISIG must be total as well
+    from checks import c06
+    cases += c06.gen_cases(ctx, ctx.pick(700, 12000))
     for c in cases:
         c.setdefault("extra", {})
     events = V.run_cases(ctx, cases, three=True)
@@ -159,7 +166,7 @@ def run(ctx):
             e["extra"] = {k: c[k] for k in ("idx", "nilprev", "nin") if k in c}
     rejects, st = V.validate(ctx, events)
     ctx.cov.update(st)
-    handle(ctx, events, rejects)
+    handle(ctx, events, rejects, cases)
     ntr = sum(1 for e in events if e["ev"] == "begin")
     ctx.cov["traces_validated_against_impl"] += ntr
     ctx.cov["executions"] = 3 * ntr
@@ -177,4 +184,4 @@ def replay(ctx, case):
         if e["ev"] == "begin":
             e["extra"] = {k: case["case"]["case"][k] for k in ("idx", "nilprev", "nin") if k in case["case"]["case"]}
     rejects, st = V.validate(ctx, events, shards=1)
-    handle(ctx, events, rejects)
+    handle(ctx, events, rejects, [case["case"]["case"]])
